@@ -55,61 +55,57 @@ pub fn gen_doc(r: &mut Rng) -> J {
     }
 }
 
+const TSTRS: &[&str] = &[
+    "x", "", " ", " pad ", "\ttab\n", "A b", "abc", "10", " 7", "1e3", "true", "null", "\"q\"", "[1]", "{}",
+    "\u{e4}\u{1F600}", "\u{20ac}", "line1\nline2", "\\back\\slash", "UPPER", "a\u{0}b", "\u{feff}bom",
+];
+
 fn gen_typed(r: &mut Rng) -> Typed {
+    // half of the values are edges, half are drawn uniformly from the whole width
+    let edge = r.chance(1, 2);
+    let bits = r.next_u64();
     match r.below(16) {
-        0 => Typed::I8(*r.pick(&[i8::MIN, -1, 0, 5, i8::MAX])),
-        1 => Typed::I16(*r.pick(&[i16::MIN, -1, 0, 300, i16::MAX])),
-        2 => Typed::I32(*r.pick(&[i32::MIN, -1, 0, 70000, i32::MAX])),
-        3 => Typed::I64(*r.pick(&[
-            i64::MIN,
-            -9007199254740993,
-            -1,
-            0,
-            3,
-            9007199254740993,
-            i64::MAX,
-        ])),
-        4 => Typed::U8(*r.pick(&[0, 5, 128, u8::MAX])),
-        5 => Typed::U16(*r.pick(&[0, 5, 32768, u16::MAX])),
-        6 => Typed::U32(*r.pick(&[0, 5, 2147483648, u32::MAX])),
-        7 => Typed::U64(*r.pick(&[
-            0,
-            5,
-            9007199254740993,
-            9223372036854775807,
-            9223372036854775808,
-            u64::MAX,
-        ])),
-        8 => Typed::Isize(*r.pick(&[isize::MIN, -1, 0, 7, isize::MAX])),
-        9 => Typed::Usize(*r.pick(&[0, 7, 9223372036854775808usize, usize::MAX])),
-        10 => Typed::F32(*r.pick(&[
-            0.0f32,
-            -0.0,
-            0.1,
-            1.5,
-            -2.25,
-            16777217.0,
-            f32::MAX,
-            f32::MIN_POSITIVE,
-            1e-45,
-        ])),
-        11 => Typed::F64(*r.pick(&[
-            0.0f64,
-            -0.0,
-            0.1,
-            1.5,
-            3.0,
-            -2.25,
-            5e-324,
-            1e300,
-            f64::MAX,
-            0.30000000000000004,
-            9007199254740993.0,
-        ])),
+        0 => Typed::I8(if edge { *r.pick(&[i8::MIN, -1, 0, 5, i8::MAX]) } else { bits as i8 }),
+        1 => Typed::I16(if edge { *r.pick(&[i16::MIN, -1, 0, 300, i16::MAX]) } else { bits as i16 }),
+        2 => Typed::I32(if edge { *r.pick(&[i32::MIN, -1, 0, 70000, i32::MAX]) } else { bits as i32 }),
+        3 => Typed::I64(if edge {
+            *r.pick(&[i64::MIN, -9007199254740993, -1, 0, 3, 9007199254740993, i64::MAX])
+        } else {
+            bits as i64
+        }),
+        4 => Typed::U8(if edge { *r.pick(&[0, 5, 128, u8::MAX]) } else { bits as u8 }),
+        5 => Typed::U16(if edge { *r.pick(&[0, 5, 32768, u16::MAX]) } else { bits as u16 }),
+        6 => Typed::U32(if edge { *r.pick(&[0, 5, 2147483648, u32::MAX]) } else { bits as u32 }),
+        7 => Typed::U64(if edge {
+            *r.pick(&[0, 5, 9007199254740993, 9223372036854775807, 9223372036854775808, u64::MAX])
+        } else {
+            bits
+        }),
+        8 => Typed::Isize(if edge { *r.pick(&[isize::MIN, -1, 0, 7, isize::MAX]) } else { bits as isize }),
+        9 => Typed::Usize(if edge {
+            *r.pick(&[0, 7, 9223372036854775808usize, usize::MAX])
+        } else {
+            bits as usize
+        }),
+        10 => Typed::F32(if edge {
+            *r.pick(&[0.0f32, -0.0, 0.1, 1.5, -2.25, 16777217.0, f32::MAX, f32::MIN_POSITIVE, 1e-45])
+        } else {
+            let f = f32::from_bits(bits as u32);
+            if f.is_finite() { f } else { 0.25 }
+        }),
+        11 => Typed::F64(if edge {
+            *r.pick(&[
+                0.0f64, -0.0, 0.1, 1.5, 3.0, -2.25, 5e-324, 1e300, f64::MAX, 0.30000000000000004,
+                9007199254740993.0,
+            ])
+        } else {
+            let f = f64::from_bits(bits);
+            if f.is_finite() { f } else { -0.125 }
+        }),
         12 => Typed::Unit,
         13 => Typed::Bool(r.chance(1, 2)),
-        14 => Typed::Str((*r.pick(STRS)).to_string()),
-        _ => Typed::String((*r.pick(STRS)).to_string()),
+        14 => Typed::Str((*r.pick(TSTRS)).to_string()),
+        _ => Typed::String((*r.pick(TSTRS)).to_string()),
     }
 }
 
